@@ -305,6 +305,27 @@ func init() {
 			}
 			r.Check(okDl, fk, "position slashed is (record delegator, record destination, record denom)", "GetDelegation(parse(record.DelegatorAddress), parse(record.DstValidatorAddress), record.Balance.Denom)", "the position slashed is "+dl.String(), r.P(vd))
 			sh := extractT(fa, vd, 0)
+			// capped variant: sharesToSlash = validated amount, or everything the position holds when that fails
+			for _, b := range fn.Blocks {
+				for _, in := range b.Instrs {
+					if phi, ok := in.(*ssa.Phi); ok {
+						hasV, okAll := false, true
+						for _, ed := range phi.Edges {
+							t := fa.Term(ed)
+							switch {
+							case t.Eq(sh):
+								hasV = true
+							case t.Eq(mkField(dl, "Shares")):
+							default:
+								okAll = false
+							}
+						}
+						if hasV && okAll {
+							sh = fa.Term(phi)
+						}
+					}
+				}
+			}
 			sts := StoresToField(fn, "types.Delegation", "Shares")
 			okS := len(sts) == 1
 			if okS {
